@@ -401,12 +401,11 @@ func (e *cidEnv) syncStatic(t fataler) {
 	e.runs = 0
 }
 
-// runDiscover copies the control plane's subscriber maps into the natively compiled program and runs it on
-// the DISCOVER.  Returns whether the program answered, and the address it offered.
-func (e *cidEnv) runDiscover(t fataler, frame []byte) (answered bool, yiaddr ip4, verdict int32) {
+// push copies the control plane's subscriber maps (as they are now) into the natively compiled program.
+func (e *cidEnv) push(t fataler) {
 	t.Helper()
 	if e.runs++; e.runs > 400 || !e.synced {
-		// a full reload every few hundred runs keeps the client's replay log (runner restart) short
+		// a full reload every few hundred cases keeps the client's replay log (runner restart) short
 		e.syncStatic(t)
 		e.synced = true
 	}
@@ -415,6 +414,12 @@ func (e *cidEnv) runDiscover(t fataler, frame []byte) (answered bool, yiaddr ip4
 			t.Fatalf("INCONCLUSIVE: copying %s into the runner: %v", n, err)
 		}
 	}
+}
+
+// runDiscover runs the program on the DISCOVER against the maps of the last push.  Returns whether the
+// program answered, and the address it offered.
+func (e *cidEnv) runDiscover(t fataler, frame []byte) (answered bool, yiaddr ip4, verdict int32) {
+	t.Helper()
 	res, err := e.c.Run("dhcp_fastpath_prog", frame, bpfnative.DefaultOpts())
 	if err != nil {
 		t.Fatalf("INCONCLUSIVE: RUN: %v", err)
@@ -439,6 +444,7 @@ func (e *cidEnv) runDiscoverMustAnswer(t fataler, frame []byte) (answered bool, 
 	answered, yiaddr, verdict = e.runDiscover(t, frame)
 	if !answered {
 		e.synced = false
+		e.push(t)
 		answered, yiaddr, verdict = e.runDiscover(t, frame)
 	}
 	return
@@ -629,6 +635,7 @@ func circuitWireProperty(t fataler, e *cidEnv, w o82Wire) (classes []string, nt 
 	}
 	frame := dhcpFrame(chaddr, nil, false, bootp)
 	if len(adv) > 0 {
+		e.push(t)
 		if hit, y, _ := e.runDiscover(t, frame); hit {
 			kind := "answers-from-foreign-entry"
 			for _, a := range adv {
@@ -645,6 +652,7 @@ func circuitWireProperty(t fataler, e *cidEnv, w o82Wire) (classes []string, nt 
 		if err := e.loader.AddCircuitIDSubscriber(goCid, cidAssignment(selfIP)); err != nil {
 			t.Fatalf("INCONCLUSIVE: AddCircuitIDSubscriber(%x): %v", goCid, err)
 		}
+		e.push(t)
 		hit, y, verdict := e.runDiscoverMustAnswer(t, frame)
 		switch {
 		case !hit:
